@@ -107,6 +107,9 @@ ares_status_t
     return ARES_EFORMERR;
   }
 
+  /* Other threads use the function table under the channel lock */
+  ares_channel_lock(channel);
+
   memset(&channel->sock_funcs, 0, sizeof(channel->sock_funcs));
 
   /* Copy individually for ABI compliance.  memcpy() with a sizeof would do
@@ -115,6 +118,7 @@ ares_status_t
     if (funcs->asocket == NULL || funcs->aclose == NULL ||
         funcs->asetsockopt == NULL || funcs->aconnect == NULL ||
         funcs->arecvfrom == NULL || funcs->asendto == NULL) {
+      ares_channel_unlock(channel);
       return ARES_EFORMERR;
     }
     channel->sock_funcs.version      = funcs->version;
@@ -133,6 +137,8 @@ ares_status_t
 
 
   channel->sock_func_cb_data = user_data;
+
+  ares_channel_unlock(channel);
 
   return ARES_SUCCESS;
 }
@@ -578,11 +584,15 @@ void ares_set_socket_functions(ares_channel_t                     *channel,
                                const struct ares_socket_functions *funcs,
                                void                               *data)
 {
-  if (channel == NULL || channel->optmask & ARES_OPT_EVENT_THREAD) {
+  if (channel == NULL) {
     return;
   }
 
-  channel->legacy_sock_funcs         = funcs;
-  channel->legacy_sock_funcs_cb_data = data;
-  ares_set_socket_functions_ex(channel, &legacy_socket_functions, channel);
+  ares_channel_lock(channel);
+  if (!(channel->optmask & ARES_OPT_EVENT_THREAD)) {
+    channel->legacy_sock_funcs         = funcs;
+    channel->legacy_sock_funcs_cb_data = data;
+    ares_set_socket_functions_ex(channel, &legacy_socket_functions, channel);
+  }
+  ares_channel_unlock(channel);
 }
